@@ -124,13 +124,15 @@ func init() {
 	add(Spec{
 		PropSpec: vlib.PropSpec{
 			ID: "C12", Level: "exploration",
-			Rule:        "stress phases (race build, GOMAXPROCS=8): 2..8 assembler goroutines + (3 of 4 rounds) a concurrent flusher (FlushOlderThan / FlushAll) on one StreamPool over 2..6 connections that are opened (SYN), fed in order and closed (FIN) for 20..120 (thorough ..300) generations each; every direction is fed by exactly one assembler; lock-free yield points (verif hooks) inject Gosched/1-100us sleeps; payloads are self-describing 8-byte records (conn, dir, generation, index) so each stream checks on its own, without shared monitor state, that it only gets its own connection's bytes, in order, gap-free unless a skip is announced, never concurrently (atomic in-callback flag), completed exactly once; offline after join: no record delivered twice, lifetimes of the kept streams of one key do not overlap (single live entry), pool empty after the final FlushAll; Go race detector reports are parsed and keyed by the innermost gopacket function pair. Non-trivial = every stress round (>= 2 goroutines on a shared pool); distinct by (round, batch).",
+			Rule:        "stress phases (race build, GOMAXPROCS=8): 2..8 assembler goroutines + (3 of 4 rounds) a concurrent flusher (FlushOlderThan / FlushAll) on one StreamPool over 2..6 connections that are opened (SYN), fed in order and closed (FIN) for 20..120 (thorough ..300) generations each; every direction is fed by exactly one assembler; lock-free yield points (verif hooks) inject Gosched/1-100us sleeps; payloads are self-describing 8-byte records (conn, dir, generation, index) so each stream checks on its own, without shared monitor state, that it only gets its own connection's bytes, in order, gap-free unless a skip is announced, never concurrently (atomic in-callback flag), completed exactly once; offline after join: no record delivered twice, lifetimes of the kept streams of one key do not overlap (single live entry), pool empty after the final FlushAll; the single-live-entry-per-key rule is decided by porcupine over the callback intervals (monotonic clock, per-stream logs); Go race detector reports are parsed and keyed by the innermost gopacket function pair. sched phases (plain build): scenarios of 2..3 assembler goroutines (+ flusher) x <= ~15 calls built from four templates (two directions of one connection on two assemblers; one key on two assemblers; close by one assembler while another holds the pointer and a third opens a connection that recycles the object; mixed), run one goroutine at a time under a controller that parks goroutines at the lock-free yield points (pool miss, after factory.New, before conn.mu.Lock, before each flush lock, call boundaries): depth-first enumeration of all schedules with <= 2 (thorough 3) preemptions, capped, plus PRNG-sampled schedules; pool and assemblers are reused from schedule to schedule so recycled connection objects are in play; same per-stream monitors, event-level porcupine check, deadlock = runner blocked on a lock while all others are parked lock-free. Non-trivial = stress round, or schedule with >= 2 context switches; distinct by (round,batch) / schedule hash.",
 			Assumptions: []string{"the race detector only reports races between accesses that both executed in the run", "stream monitors use only per-stream state (plus an atomic in-callback flag), so they add no happens-before edges between different connections"},
 			Phases: []vlib.Phase{
 				{Name: "stress-tcpassembly", Bin: "vtcpasm", Race: true, Quick: 2, Thorough: 4, Procs: 8, Parallel: 2},
 				{Name: "stress-reassembly", Bin: "vreasm", Race: true, Quick: 2, Thorough: 4, Procs: 8, Parallel: 2},
+				{Name: "sched-tcpassembly", Bin: "vtcpasm", Quick: 16, Thorough: 16, Procs: 2},
+				{Name: "sched-reassembly", Bin: "vreasm", Quick: 16, Thorough: 16, Procs: 2},
 			},
-			Require: []string{"stress_rounds_tcpassembly", "stress_rounds_reassembly", "stress_rounds_with_flusher"},
+			Require: []string{"stress_rounds_tcpassembly", "stress_rounds_reassembly", "stress_rounds_with_flusher", "schedules_tcpassembly", "schedules_reassembly", "callback_events_checked_by_porcupine"},
 		},
 		LevelText: "Runtime monitoring under stress: the real assemblers run concurrently against one pool under the Go race detector with delay injection at lock-free yield points; per-stream monitors and offline history checks decide ordering, single-entry and exactly-once completion. Exploration: only the interleavings that occurred are covered.",
 		LevelNote: trusted,
@@ -140,7 +142,7 @@ func init() {
 	add(Spec{
 		PropSpec: vlib.PropSpec{
 			ID: "C20", Level: "exploration",
-			Rule: "enum phase: every delivery script of <= 2 batches x 1..2 slices (plus all 3-batch scripts of single slices) with slice lengths {0,1,5} and skips {0,3}, followed by completion, crossed with every consumer script: 0..3 (thorough 0..4) leading reads of sizes {0,1,7} (thorough {0,1,3,7,64}) then one of {read to EOF with 1-byte reads, read to EOF with 4096-byte reads, Close, Close+Read, Close+Close, Close+read to EOF}, LossErrors off and on; the assembler side calls Reassembled/ReassemblyComplete exactly as tcpassembly does, in its own goroutine. assembler phase: real Assembler over generated out-of-order histories with a ReaderStream per direction, consumers with PRNG read sizes, LossErrors, and Close after a PRNG number of reads (race build). Oracle: bytes read == (prefix of) the concatenation handed over, EOF only after completion, one DataLost per gap that is followed by data when asked, no panic, and BOTH goroutines finish - a deadlock is decided from a goroutine snapshot (all unfinished parties parked on the stream's channels), the timer only decides when to look. Non-trivial = scenario with >= 2 batches and >= 1 leading read; distinct by (delivery script, consumer script).",
+			Rule:        "enum phase: every delivery script of <= 2 batches x 1..2 slices (plus all 3-batch scripts of single slices) with slice lengths {0,1,5} and skips {0,3}, followed by completion, crossed with every consumer script: 0..3 (thorough 0..4) leading reads of sizes {0,1,7} (thorough {0,1,3,7,64}) then one of {read to EOF with 1-byte reads, read to EOF with 4096-byte reads, Close, Close+Read, Close+Close, Close+read to EOF}, LossErrors off and on; the assembler side calls Reassembled/ReassemblyComplete exactly as tcpassembly does, in its own goroutine. assembler phase: real Assembler over generated out-of-order histories with a ReaderStream per direction, consumers with PRNG read sizes, LossErrors, and Close after a PRNG number of reads (race build). Oracle: bytes read == (prefix of) the concatenation handed over, EOF only after completion, one DataLost per gap that is followed by data when asked, no panic, and BOTH goroutines finish - a deadlock is decided from a goroutine snapshot (all unfinished parties parked on the stream's channels), the timer only decides when to look. Non-trivial = scenario with >= 2 batches and >= 1 leading read; distinct by (delivery script, consumer script).",
 			Assumptions: []string{"a slice with a skip but no bytes is not required to produce DataLost (the statement does not say)", "a consumer that neither keeps reading nor closes is outside the property"},
 			Phases: []vlib.Phase{
 				{Name: "enum", Bin: "vtcpasm", Quick: 16, Thorough: 16, Procs: 2, Parallel: 16},
@@ -157,7 +159,7 @@ func init() {
 	add(Spec{
 		PropSpec: vlib.PropSpec{
 			ID: "C16", Level: "exploration",
-			Rule: "Scripted data sources (copying, and zero-copy ones that really reuse one buffer and overwrite it on every read) replay PRNG histories of 5..300 items (a 2500-item tier overflows the 1000-slot channel): packets with unique ids (caplen <= len, snapped in 1 of 4), timeouts (net.Error), transient errors, and a terminal error out of {EOF, ErrUnexpectedEOF, ErrNoProgress, ErrClosedPipe, ErrShortBuffer, EBADF, 'use of closed file', wrapped EOF}; decode options Lazy/NoCopy PRNG. pull phase: NextPacket results must mirror the script item by item (errors surfaced as-is, ids in order, CaptureInfo equal, Truncated == caplen<len or decoder-detected). channel phase: ids received from Packets() == the script's packets in order, once; channel closed after the terminal error and not before, no read after it; slow and fast consumers; zero-copy source + NoCopy must be refused. cancel phase: PacketsCtx cancelled at every script position (enumerated modulo the script length), both between reads and while a read is blocked inside the source: at most one source read may start after cancel() returned and the channel must get closed (goroutine exit), decided with a goroutine snapshot; no packetsToChannel goroutine may be left at the end. Every delivered packet's signature is recomputed after the whole script ran (not altered by later reads). All phases under the race detector. Non-trivial = every script (>= 5 items, >= 1 packet); distinct by (case, batch).",
+			Rule:        "Scripted data sources (copying, and zero-copy ones that really reuse one buffer and overwrite it on every read) replay PRNG histories of 5..300 items (a 2500-item tier overflows the 1000-slot channel): packets with unique ids (caplen <= len, snapped in 1 of 4), timeouts (net.Error), transient errors, and a terminal error out of {EOF, ErrUnexpectedEOF, ErrNoProgress, ErrClosedPipe, ErrShortBuffer, EBADF, 'use of closed file', wrapped EOF}; decode options Lazy/NoCopy PRNG. pull phase: NextPacket results must mirror the script item by item (errors surfaced as-is, ids in order, CaptureInfo equal, Truncated == caplen<len or decoder-detected). channel phase: ids received from Packets() == the script's packets in order, once; channel closed after the terminal error and not before, no read after it; slow and fast consumers; zero-copy source + NoCopy must be refused. cancel phase: PacketsCtx cancelled at every script position (enumerated modulo the script length), both between reads and while a read is blocked inside the source: at most one source read may start after cancel() returned and the channel must get closed (goroutine exit), decided with a goroutine snapshot; no packetsToChannel goroutine may be left at the end. Every delivered packet's signature is recomputed after the whole script ran (not altered by later reads). All phases under the race detector. Non-trivial = every script (>= 5 items, >= 1 packet); distinct by (case, batch).",
 			Assumptions: []string{"the 5 ms retry sleeps of packetsToChannel bound throughput: scripts contain <= 12 timeouts/transient errors", "a zero-copy source with NoCopy on the pull interface aliases by design and is excluded from the not-altered check"},
 			Phases: []vlib.Phase{
 				{Name: "pull", Bin: "vchild", Race: true, Quick: 8, Thorough: 16},
